@@ -50,6 +50,18 @@ def classes():
         mm = re.search(r"return cls\._multi_new\(\s*'audio',\s*([\w,\s]+)\)", src)
         if not mm:
             continue
+        # "delegates straight": the body is nothing but that return (constructors that first convert an argument,
+        # e.g. to audio rate, create helper units of their own and are outside the law as stated)
+        try:
+            import ast
+            import textwrap
+            fdef = ast.parse(textwrap.dedent(src)).body[0]
+            stmts = [st for st in fdef.body
+                     if not (isinstance(st, ast.Expr) and isinstance(getattr(st, 'value', None), ast.Constant))]
+            if len(stmts) != 1 or not isinstance(stmts[0], ast.Return):
+                continue
+        except SyntaxError:
+            continue
         args = [a.strip() for a in mm.group(1).split(',') if a.strip()]
         params = list(inspect.signature(cls.ar).parameters)
         if args != params or len(params) < 1:
@@ -296,7 +308,7 @@ def fam_out(ctx):
     m = M()
     nse, iou, ugn = m['nse'], m['iou'], m['ugn']
     x, y = ctx.real('x'), ctx.real('y')
-    sh = ctx.choose('shape', 5)
+    sh = ctx.choose('shape', 7)
     rec = {'mode': 'nrt', 'fam': 'out', 'shape': sh, 'names': ['x', 'y']}
 
     def data(sub):
@@ -306,7 +318,10 @@ def fam_out(ctx):
     def g():
         a, b = nse.LFNoise0.ar(401), nse.LFNoise0.ar(402)
         arr = [[a, x, b, y], ugn.ChannelList([a, x, b, 0, y]), ugn.ChannelList([x, a, y, 0.0, b]), [x, y],
-               [a, [x, [b, 0]], y]][sh]
+               [a, [x, [b, 0]], y],
+               # nested channel lists (what `sig * [1, 0]` produces), zeros inside them
+               [ugn.ChannelList([a, 0]), ugn.ChannelList([0.0, b])],
+               ugn.ChannelList([ugn.ChannelList([a, x]), ugn.ChannelList([y, b])])][sh]
         iou.Out.ar(0, arr)
     try:
         sd, b = sdsym.build_bytes('o', g)
@@ -314,8 +329,8 @@ def fam_out(ctx):
         raise
     except Exception as e:
         # two numbers that are not zero are not audio-rate signals: the library refuses them; fine
-        if ctx.valid(z3.Or(x.e != 0, y.e != 0) if isinstance(x, SymReal) else bool(x != 0 or y != 0)) and \
-                'audio rate' in str(e):
+        if sh != 5 and ctx.valid(z3.Or(x.e != 0, y.e != 0) if isinstance(x, SymReal) else bool(x != 0 or y != 0)) \
+                and 'audio rate' in str(e):
             ctx.note('out-rejected-nonzero-number')
             raise PathAbort('non-zero number into Out.ar')
         raise Violation(f'Out.ar of an array does not compile: {type(e).__name__}: {e}', None, data('compile'))
@@ -325,7 +340,7 @@ def fam_out(ctx):
         raise Violation(f'Out.ar of an array: bytes are not SCgf-2: {e}', None, data('format'))
     den = sdsym.Denot(d)
     dcs = [i for i, u in enumerate(d['ugens']) if u['cls'] == 'DC']
-    if sh == 4:
+    if sh >= 4:
         # a nested array expands into several output units (the law applied to Out itself); every channel input
         # must still be a signal: no bare zero constants
         for (ui, cls, rate, ins) in den.outs:
